@@ -54,7 +54,8 @@ def handler_env(S, meth, names=None, cls=CLS):
     for c in ast.walk(repo.module_ast(MOD)):
         if isinstance(c, ast.ClassDef) and c.name in (cls, "Phase"):
             for f in c.body:
-                if isinstance(f, ast.FunctionDef) and not f.name.startswith("__"):
+                if isinstance(f, ast.FunctionDef) and not f.name.startswith("__") and not f.name.startswith("ignore"):
+                    # (predicates such as ignoreEndTagTr stay real code)
                     # (the handler under contract is entered directly by the engine: overriding its own name only
                     # affects the calls it makes to itself)
                     me.methods[f.name] = recorder(S, me, f.name)
@@ -565,3 +566,178 @@ IN_TABLE = [
 
 for _m, _names, _fn in IN_TABLE:
     globals()["InTable_" + _m] = _mk(_m, _names, _fn, "InTablePhase")
+
+
+# ------------------------------------------------------------------------------------------- "in table body" mode
+def any_row_group_in_table_scope(old):
+    st = old.self.tree.openElements
+    return stack_in_scope("tbody", "table", st) or stack_in_scope("thead", "table", st) or stack_in_scope("tfoot", "table", st)
+
+
+# --- tr: clear the stack back to a table body context; insert; "in row"
+def spec_tb_tr(old, self, token, result):
+    return (result is None and ops_are(self, [("call", "clearStackToTableBodyContext", None), ("insert", token)])
+            and grew_by(old, self, 1) and same_object(self.parser.phase, self.parser.phases["inRow"]))
+
+
+# --- td, th: parse error; act as if <tr> had been seen; reprocess
+def spec_tb_cell(old, self, token, result):
+    return same_object(result, token) and ops_are(self, [("call", "startTagTr", "tr")])
+
+
+# --- caption, col, colgroup, tbody, tfoot, thead start tags and </table>: without a row group in table scope ignore (parse
+#     error); else clear the stack back to a table body context, act as for the end tag of the current node, reprocess
+def spec_tb_table_other(old, self, token, result):
+    if not any_row_group_in_table_scope(old):
+        return result is None and ops_are(self, [])
+    ops = self.ghost_ops
+    return (same_object(result, token) and len(ops) == 2 and ops[0] == ("call", "clearStackToTableBodyContext", None)
+            and ops[1][0] == "call" and ops[1][1] == "endTagTableRowGroup"
+            and ops[1][2] == old.self.tree.openElements[-1].name)
+
+
+# --- </tbody>, </tfoot>, </thead>: ignored (parse error) unless in table scope; else clear the stack, pop the current node,
+#     "in table"
+def spec_tb_end_row_group(old, self, token, result):
+    if not stack_in_scope(token["name"], "table", old.self.tree.openElements):
+        return result is None and ops_are(self, []) and grew_by(old, self, 0) and same_object(self.parser.phase, old.self.parser.phase)
+    return (result is None and ops_are(self, [("call", "clearStackToTableBodyContext", None)]) and grew_by(old, self, -1)
+            and same_object(self.parser.phase, self.parser.phases["inTable"]))
+
+
+IN_TABLE_BODY = [
+    ("startTagTr", ["tr"], spec_tb_tr),
+    ("startTagTableCell", ["td", "th"], spec_tb_cell),
+    ("startTagTableOther", ["caption", "col", "colgroup", "tbody", "tfoot", "thead"], spec_tb_table_other),
+    ("endTagTable", ["table"], spec_tb_table_other),
+    ("endTagTableRowGroup", ["tbody", "tfoot", "thead"], spec_tb_end_row_group),
+    ("endTagIgnore", ["body", "caption", "col", "colgroup", "html", "td", "th", "tr"], spec_head_end_other),
+]
+
+for _m, _names, _fn in IN_TABLE_BODY:
+    globals()["InTableBody_" + _m] = _mk(_m, _names, _fn, "InTableBodyPhase")
+
+
+# ------------------------------------------------------------------------------------------- "in column group" mode
+# --- col: insert, pop at once, acknowledge the solidus
+def spec_cg_col(old, self, token, result):
+    return (result is None and ops_are(self, [("insert", token)]) and grew_by(old, self, 0)
+            and token["selfClosingAcknowledged"] is True)
+
+
+# --- </colgroup>: ignored (parse error) if the current node is the html element (fragment case); else pop it, "in table"
+def spec_cg_end_colgroup(old, self, token, result):
+    if old.self.tree.openElements[-1].name == "html":
+        return result is None and grew_by(old, self, 0) and same_object(self.parser.phase, old.self.parser.phase)
+    return result is None and grew_by(old, self, -1) and same_object(self.parser.phase, self.parser.phases["inTable"])
+
+
+# --- anything else: act as for </colgroup>; reprocess unless that end tag was ignored
+def spec_cg_anything_else(old, self, token, result):
+    ops = self.ghost_ops
+    if not (len(ops) >= 1 and ops[-1] == ("call", "endTagColgroup", "colgroup")):
+        return False
+    if old.self.tree.openElements[-1].name == "html":
+        return result is None
+    return same_object(result, token)
+
+
+IN_COLUMN_GROUP = [
+    ("startTagCol", ["col"], spec_cg_col),
+    ("endTagColgroup", ["colgroup"], spec_cg_end_colgroup),
+    ("endTagCol", ["col"], spec_head_end_other),
+]
+
+for _m, _names, _fn in IN_COLUMN_GROUP:
+    globals()["InColumnGroup_" + _m] = _mk(_m, _names, _fn, "InColumnGroupPhase")
+
+
+# ------------------------------------------------------------------------------------------- "in row" mode
+def tr_in_table_scope(old):
+    return stack_in_scope("tr", "table", old.self.tree.openElements)
+
+
+# --- td, th: clear the stack back to a table row context; insert; "in cell"; marker onto the active formatting elements
+def spec_row_cell(old, self, token, result):
+    afe = self.tree.activeFormattingElements
+    return (result is None and ops_are(self, [("call", "clearStackToTableRowContext", None), ("insert", token)])
+            and grew_by(old, self, 1) and same_object(self.parser.phase, self.parser.phases["inCell"])
+            and afe[-1] is None and len(afe) == len(old.self.tree.activeFormattingElements) + 1)
+
+
+# --- </tr>: ignored (parse error) without a tr in table scope; else clear the stack back to a table row context, pop the tr,
+#     "in table body"
+def spec_row_end_tr(old, self, token, result):
+    if not tr_in_table_scope(old):
+        return result is None and ops_are(self, []) and grew_by(old, self, 0) and same_object(self.parser.phase, old.self.parser.phase)
+    return (result is None and ops_are(self, [("call", "clearStackToTableRowContext", None)]) and grew_by(old, self, -1)
+            and same_object(self.parser.phase, self.parser.phases["inTableBody"]))
+
+
+# --- caption, col, colgroup, tbody, tfoot, thead, tr start tags and </table>: act as for </tr>; reprocess unless it was ignored
+def spec_row_table_other(old, self, token, result):
+    if not ops_are(self, [("call", "endTagTr", "tr")]):
+        return False
+    return same_object(result, token) if tr_in_table_scope(old) else result is None
+
+
+# --- </tbody>, </tfoot>, </thead>: ignored unless that element is in table scope; else act as for </tr> and reprocess
+def spec_row_end_row_group(old, self, token, result):
+    if not stack_in_scope(token["name"], "table", old.self.tree.openElements):
+        return result is None and ops_are(self, [])
+    return same_object(result, token) and ops_are(self, [("call", "endTagTr", "tr")])
+
+
+IN_ROW = [
+    ("startTagTableCell", ["td", "th"], spec_row_cell),
+    ("endTagTr", ["tr"], spec_row_end_tr),
+    ("startTagTableOther", ["caption", "col", "colgroup", "tbody", "tfoot", "thead", "tr"], spec_row_table_other),
+    ("endTagTable", ["table"], spec_row_table_other),
+    ("endTagTableRowGroup", ["tbody", "tfoot", "thead"], spec_row_end_row_group),
+    ("endTagIgnore", ["body", "caption", "col", "colgroup", "html", "td", "th"], spec_head_end_other),
+]
+
+for _m, _names, _fn in IN_ROW:
+    globals()["InRow_" + _m] = _mk(_m, _names, _fn, "InRowPhase")
+
+
+# ------------------------------------------------------------------------------------------- "in cell" mode
+def cell_in_table_scope(old):
+    st = old.self.tree.openElements
+    return stack_in_scope("td", "table", st) or stack_in_scope("th", "table", st)
+
+
+# --- caption, col, colgroup, tbody, td, tfoot, th, thead, tr start tags: without a cell in table scope ignore (fragment case);
+#     else close the cell and reprocess
+def spec_cell_table_other(old, self, token, result):
+    if not cell_in_table_scope(old):
+        return result is None and ops_are(self, [])
+    return same_object(result, token) and ops_are(self, [("call", "closeCell", None)])
+
+
+# --- </td>, </th>: ignored (parse error) unless in table scope; else implied end tags except for it, pop up to and including
+#     it, clear the active formatting elements up to the last marker, "in row"
+def spec_cell_end_cell(old, self, token, result):
+    if not stack_in_scope(token["name"], "table", old.self.tree.openElements):
+        return result is None and ops_are(self, []) and grew_by(old, self, 0) and same_object(self.parser.phase, old.self.parser.phase)
+    return (result is None and ops_are(self, [("implied", token["name"])])
+            and len(self.tree.openElements) < len(old.self.tree.openElements)
+            and same_object(self.parser.phase, self.parser.phases["inRow"]))
+
+
+# --- </table>, </tbody>, </tfoot>, </thead>, </tr>: ignored unless that element is in table scope; else close the cell, reprocess
+def spec_cell_end_imply(old, self, token, result):
+    if not stack_in_scope(token["name"], "table", old.self.tree.openElements):
+        return result is None and ops_are(self, [])
+    return same_object(result, token) and ops_are(self, [("call", "closeCell", None)])
+
+
+IN_CELL = [
+    ("startTagTableOther", ["caption", "col", "colgroup", "tbody", "td", "tfoot", "th", "thead", "tr"], spec_cell_table_other),
+    ("endTagTableCell", ["td", "th"], spec_cell_end_cell),
+    ("endTagImply", ["table", "tbody", "tfoot", "thead", "tr"], spec_cell_end_imply),
+    ("endTagIgnore", ["body", "caption", "col", "colgroup", "html"], spec_head_end_other),
+]
+
+for _m, _names, _fn in IN_CELL:
+    globals()["InCell_" + _m] = _mk(_m, _names, _fn, "InCellPhase")
